@@ -175,6 +175,27 @@ def run(ctx):
             g1 = tr31.wrap(k1, t.impl_header(c), c["key"])
             g2 = tr31.wrap(k2, t.impl_header(c), c["key"])
             seqs.append((k1, [("U", g1), ("K", k2), ("U", g1), ("U", g2), ("K", k1), ("U", g2), ("U", g1)], [True, None, False, True, None, False, True]))
+    # ... and across versions on one object: a KBPK that is only DES-equivalent (parity-adjusted, or K1K2K1 for K1K2) to the
+    #     current one must not open an AES (version D) block, whatever TDES operation the object performed before
+    for ks in (16, 24):
+        for v1 in "ABC":
+            if ks not in t.KBPK_SIZES[v1]:
+                continue
+            k = rng.randbytes(ks)
+            kadj = bytes(b if bin(b).count("1") % 2 else b ^ 1 for b in k)
+            if kadj == k:
+                continue
+            c = t.gen_case(rng, version=v1, profile="few", keylen=16, mask=None)
+            cd = t.gen_case(rng, version="D", profile="none", keylen=16, mask=None)
+            g1 = tr31.wrap(k, t.impl_header(c), c["key"])
+            gd_adj = tr31.wrap(kadj, t.impl_header(cd), cd["key"])
+            gd = tr31.wrap(k, t.impl_header(cd), cd["key"])
+            g1_adj = tr31.wrap(kadj, t.impl_header(c), c["key"])
+            seqs.append((k, [("U", g1), ("U", gd_adj), ("U", gd), ("W", c["key"], None), ("U", gd_adj), ("U", g1)],
+                         [True, False, True, None, False, True]))
+            # (for A, B, C the parity-adjusted KBPK IS equivalent - DES ignores parity bits, also inside the CMAC derivation -
+            #  so a block wrapped under it must open)
+            seqs.append((k, [("U", gd), ("U", g1_adj), ("U", g1)], [True, True, True]))
     both, _ = t.run_both([(k, ops) for k, ops, _ in seqs])
     for (k, ops, want), (impl, model) in zip(seqs, both):
         if impl != model:
